@@ -26,3 +26,29 @@ pub fn venumerate<I: Iterator>(it: I) -> (r: VEnumerate<I>)
         forall|j: int| 0 <= j < r.remaining().len() ==> (#[trigger] r.remaining()[j]).0 == j && r.remaining()[j].1 == it.remaining()[j],
 { unimplemented!() }
 }
+// ---- `.into_iter().filter_map(f).collect()` / `.into_iter().filter(f).collect()` on a Vec (rewrites filter_map_collect /
+// filter_collect): own functions, since vstd has no specification for the adapters. Assumed std contract: if every answer of
+// the closure is the value of a spec function c, the collected Vec is the filter_map / filter of the elements by c, in order.
+pub mod vitc {
+use vstd::prelude::*;
+pub struct VCollected<U> { pub v: Vec<U> }
+impl<U> VCollected<U> { pub fn collect(self) -> (r: Vec<U>) ensures r == self.v { self.v } }
+pub open spec fn filter_map_spec<T, U>(s: Seq<T>, c: spec_fn(T) -> Option<U>) -> Seq<U>
+    decreases s.len()
+{
+    if s.len() == 0 { Seq::empty() } else {
+        let rest = filter_map_spec(s.drop_first(), c);
+        match c(s[0]) { Some(u) => seq![u].add(rest), None => rest }
+    }
+}
+#[verifier::external_body]
+pub fn vfilter_map<T, U, F: FnMut(T) -> Option<U>>(v: Vec<T>, f: F) -> (r: VCollected<U>)
+    requires forall|x: T| #[trigger] f.requires((x,)),
+    ensures forall|c: spec_fn(T) -> Option<U>| (forall|x: T, o: Option<U>| #[trigger] f.ensures((x,), o) ==> o == c(x)) ==> r.v@ == #[trigger] filter_map_spec(v@, c),
+{ unimplemented!() }
+#[verifier::external_body]
+pub fn vfilter<T, F: FnMut(&T) -> bool>(v: Vec<T>, f: F) -> (r: VCollected<T>)
+    requires forall|x: &T| #[trigger] f.requires((x,)),
+    ensures forall|c: spec_fn(T) -> bool| (forall|x: &T, o: bool| #[trigger] f.ensures((x,), o) ==> o == c(*x)) ==> r.v@ == #[trigger] v@.filter(c),
+{ unimplemented!() }
+}
